@@ -48,7 +48,7 @@ theorem inv_step (comp : Comp) (s : St) (op : Op) (h : Inv comp s) : Inv comp (s
     · exact h
     · split
       · exact h
-      · obtain ⟨h1, h2⟩ := parseTemplate_diag comp { s with srcs := put s.srcs uri text } uri text
+      · obtain ⟨h1, h2⟩ := parseTemplate_diag comp { s with srcs := put s.srcs uri (lastSeg30 text) } uri (lastSeg30 text)
         intro u t hu
         simp only [] at hu ⊢
         rw [h2] at hu
@@ -123,12 +123,12 @@ compile, opening or changing it notifies the editor, under the template URI, wit
 (line−1, column−1); when it compiles, with an empty list. -/
 theorem change_publishes_compiler_error (comp : Comp) (s : St) (u t old : GoStr) (v : Int)
     (hu : isGohtURI u = true) (ho : get s.srcs u = some old) :
-    ∃ cached, (step comp s (.change u t v)).2.head? = some (Ev.eDiag u (cached ++ ownDiags (comp t))) ∧
-      ((comp t).err = none → cached = []) := by
+    ∃ cached, (step comp s (.change u t v)).2.head? = some (Ev.eDiag u (cached ++ ownDiags (comp (lastSeg30 t)))) ∧
+      ((comp (lastSeg30 t)).err = none → cached = []) := by
   simp only [step, hu, Bool.not_true, Bool.false_eq_true, if_false, ho]
   unfold parseTemplate ownDiags
   simp only []
-  cases h : (comp t).err with
+  cases h : (comp (lastSeg30 t)).err with
   | none => exact ⟨[], by simp, fun _ => rfl⟩
   | some e =>
     obtain ⟨line, col, msg⟩ := e
